@@ -816,14 +816,15 @@ def stream_bch(ctx):
     import numpy
     of = ctx.of
     from openfermion.utils import bch_expansion as bch
-    st = Stream('bch', 'BCH coefficient tables _generate_nested_commutator(order) for every order <= 6 (8 thorough) '
+    st = Stream('bch', 'BCH coefficient tables _generate_nested_commutator(order) for every order <= 8 '
                 'compared with the exact rational Model; oracle: exp(sum coeff * nested commutator) = exp X exp Y in '
                 'the free nilpotent algebra (Lean, on the implementation\'s rationalised coefficients) and '
                 'bch_expand(X_1..X_N, order=k) = log(exp X_1 ... exp X_N) on random strictly upper triangular '
-                '(k+1)x(k+1) dyadic matrices, N = 2..4, against exact rational arithmetic; distinct = distinct '
+                '(k+1)x(k+1) dyadic matrices (nilpotent of class exactly k: non-zero superdiagonals), k = 1..8, N = 2..5, '
+                'against exact rational arithmetic; distinct = distinct '
                 '(order, matrices)')
     rng = rng_for(ctx.seed, 'c07-bch')
-    max_order = budget(ctx.tier, 6, 8)
+    max_order = 8
     model_terms = {}
     for order in range(0, max_order + 1):
         case = {'fn': '_generate_nested_commutator', 'order': order}
@@ -864,15 +865,25 @@ def stream_bch(ctx):
         else:
             st.violate('a BCH coefficient is not a rational with small denominator', case, None)
 
-    # matrices
-    for _ in range(budget(ctx.tier, 40, 400)):
-        order = rng.randint(1, min(5, max_order))
-        nops = rng.choice([2, 2, 3, 4])
+    # matrices: strictly upper triangular (order+1)x(order+1) matrices are nilpotent of class `order`, and the
+    # degree-`order` part only survives when every superdiagonal entry is non-zero (forced for half of the cases)
+    plan = [(rng.randint(1, 8), rng.choice([2, 2, 3, 4, 5])) for _ in range(budget(ctx.tier, 40, 400))]
+    plan += [(o, k) for o in (6, 7, 8) for k in (3, 4, 5)] * budget(ctx.tier, 1, 4)
+    for order, nops in plan:
         N = order + 1
+        full = rng.random() < 0.6 or order >= 6
         mats = []
         for _ in range(nops):
-            mats.append([[Fraction(rng.randint(-4, 4), 2 ** rng.randint(0, 2)) if j > i else Fraction(0)
-                          for j in range(N)] for i in range(N)])
+            m = [[Fraction(0)] * N for _ in range(N)]
+            for i in range(N):
+                for j in range(i + 1, N):
+                    if j == i + 1 and full:
+                        m[i][j] = Fraction(rng.choice([-2, -1, 1, 2]), rng.choice([1, 2]))
+                    elif order <= 5:
+                        m[i][j] = Fraction(rng.randint(-4, 4), 2 ** rng.randint(0, 2))
+                    else:
+                        m[i][j] = Fraction(rng.choice([-1, 0, 0, 1]), rng.choice([1, 2]))
+            mats.append(m)
         case = {'fn': 'bch_expand', 'order': order, 'mats': [[[str(x) for x in r] for r in m] for m in mats]}
         st.case(case)
         st.count('bch_expand:order=%d:ops=%d' % (order, nops))
@@ -886,15 +897,17 @@ def stream_bch(ctx):
             prod = frac_mat_mul(prod, frac_exp(m))
         want = frac_log(prod)
         st.float_comparisons += N * N
+        scale = max(1.0, max(abs(float(x)) for r in want for x in r))
         err = max(abs(float(want[i][j]) - R[i][j]) for i in range(N) for j in range(N))
-        if not err <= 1e-9:
+        if not err <= 1e-9 * scale:
             st.violate('bch_expand(order=%d) != log(prod exp X_i) on nilpotent matrices (max error %g)' % (order, err),
                        case, {'got': R.tolist(), 'want': [[str(x) for x in r] for r in want]})
-        # Model: same bracketing, exact coefficients: exact equality with the log
-        tree = ctx.driver.one({'op': 'c07.bch_tree', 'n': nops})
-        got = bch_tree_frac(tree, mats, model_terms[order])
-        if got != want:
-            st.disagree('Model BCH (exact) != log(prod exp X_i)', case, 'exact model value differs', None)
+        # Model: same bracketing, exact coefficients: exact equality with the log (cheap orders only)
+        if order <= 5:
+            tree = ctx.driver.one({'op': 'c07.bch_tree', 'n': nops})
+            got = bch_tree_frac(tree, mats, model_terms[order])
+            if got != want:
+                st.disagree('Model BCH (exact) != log(prod exp X_i)', case, 'exact model value differs', None)
     # error kinds
     X = of.QubitOperator('X0')
     for args, kw, exp in (((X,), {}, 'ValueError'), ((X, X), {'order': -1}, 'ValueError'),
